@@ -666,12 +666,14 @@ Proof.
 Qed.
 
 (* ---------------------------------------------------------------- the hypotheses are satisfiable; sharpness *)
-Definition solve_zero (i : nat) (sigs : list (list float)) : list (list float) :=
-  map (fun _ => repeat 0%float i) sigs.
-Lemma solve_zero_shape : faer_shape solve_zero.
+(* identity cross-talk: every signal zero-padded to the block's length i (what the real solve does for A = 1) *)
+Definition solve_pad (i : nat) (sigs : list (list float)) : list (list float) :=
+  map (fun s => firstn i s ++ repeat 0%float (i - length s)) sigs.
+Lemma solve_pad_shape : faer_shape solve_pad.
 Proof.
-  intros i sigs. unfold solve_zero. split. apply map_length.
-  apply Forall_forall. intros c Hc. apply in_map_iff in Hc as (x & <- & _). apply repeat_length.
+  intros i sigs. unfold solve_pad. split. apply map_length.
+  apply Forall_forall. intros c Hc. apply in_map_iff in Hc as (x & <- & _).
+  rewrite app_length, firstn_length, repeat_length. lia.
 Qed.
 
 Definition resp18m : list float := repeat (-1)%float 18.
@@ -684,3 +686,27 @@ Lemma resp18m_wire : response_windows_ok resp18m (range_incl 0 1) (range_incl 3 
 Proof. solve_windows. Qed.
 Lemma resp18m_pad : response_windows_ok resp18m (range_incl 3 5) (range_incl 7 12).
 Proof. solve_windows. Qed.
+
+(* a small event: wire 100 (pad column 11) carries a response-shaped pulse of amplitude 3 starting at sample 1,
+   pads (11, 299..301) carry pulses 2 / 4 / 2 *)
+Definition ex_pulse (k : nat) (a : float) (n : nat) : list float :=
+  repeat 0%float k ++ repeat (PrimFloat.opp a) 18 ++ repeat 0%float (n - k - 18).
+Definition ex_ws : list (option (list float)) :=
+  map (fun i => if i =? 100 then Some (ex_pulse 1 3 24) else None) (Nseq 0 NW).
+Definition ex_pads : list (list (option (list float))) :=
+  map (fun c => map (fun r => if (c =? 11) && (r =? 299) then Some (ex_pulse 4 2 28)
+                              else if (c =? 11) && (r =? 300) then Some (ex_pulse 4 4 28)
+                              else if (c =? 11) && (r =? 301) then Some (ex_pulse 4 2 28) else None)
+                   (Nseq 0 NROWS)) (Nseq 0 NCOLS).
+Definition ex_event : main_event (list float) := MainEvent _ ex_ws ex_pads 12345.
+Definition ex_zf (r : N) (f m l : float) : float := m.
+Definition ex_run (ws : list (option (list float))) (pads : list (list (option (list float)))) :=
+  avalanches_res_f64 ex_zf solve_pad resp18m resp18m (isort (lessW fgt)) (isort (lessP fgt)) ws pads.
+Lemma ex_event_shape : event_shape ex_event.
+Proof.
+  split; [|split]; cbn [wire_signals pad_signals ex_event].
+  - unfold ex_ws. rewrite map_length, Nseq_length. lia.
+  - unfold ex_pads. rewrite map_length, Nseq_length. lia.
+  - apply Forall_forall. intros col Hc. unfold ex_pads in Hc. apply in_map_iff in Hc as (c & <- & _).
+    rewrite map_length, Nseq_length. lia.
+Qed.
